@@ -50,7 +50,7 @@ pub const HUGE_CASE: u64 = u64::MAX - 20;
 fn huge_case(ctx: &Ctx, rep: &mut Reporter) {
     ctx.note_case(HUGE_CASE);
     let mut rng = Rng::new(ctx.case_seed(HUGE_CASE));
-    let n = 60_000 + rng.below(5_000);
+    let n = if ctx.variant == "debug" { 20_000 } else { 60_000 } + rng.below(5_000);
     let ast = pgvcore::ast::huge_group_ast(&mut rng, n);
     let text = ast.print_lf();
     rep.count("huge_group_inputs", 1);
